@@ -56,7 +56,7 @@ def oneOfCheck (l : Links) (dfn : Definition) (v : Value) : Except Bytes (List R
       | f0 :: _ => .ok [errAt (str "Field \"" ++ dfn.name ++ str "." ++ f0.name ++ str "\" must be non-null.") fv.pos]
     else if fv.kind == .variable then
       match l.varDef fv.pos.start with
-      | none => .error nilDeref
+      | none => .ok []        -- `isVariable` requires `VariableDefinition != nil` (repair of R2a/R2b)
       | some vd =>
         if !vd.type.nonNull then
           .ok [errAt (str "Variable " ++ dq vd.var ++ str " must be non-nullable to be used for OneOf Input Object "
